@@ -220,6 +220,7 @@ func (eng *Engine) contractFor(fn *types.Func) *Contract {
 var pureExternalPrefixes = []string{
 	"strings.", "strconv.", "bytes.Equal", "bytes.Compare", "bytes.HasPrefix", "bytes.HasSuffix", "bytes.Contains", "bytes.Index", "bytes.Count", "bytes.IndexByte",
 	"fmt.Sprintf", "fmt.Sprint", "fmt.Errorf", "errors.", "net.ParseIP", "net.ParseCIDR", "net.CIDRMask", "(net.IP).", "(net.IPMask).", "(*net.IPNet).", "math.", "unicode", "time.",
+	"github.com/dgryski/go-spooky.", "(io.Writer).", "(*bufio.Writer).", "(hash.Hash).", "(hash.Hash32).", "(io.Seeker).", "(io.WriteSeeker).", "(*bytes.Buffer).", "(io.Reader).", "(*bufio.Reader).",
 	"os.Getenv", "runtime.NumCPU", "sort.Search", "path/filepath.", "(time.", "math/bits.", "encoding/base64.", "encoding/hex.",
 }
 
